@@ -24,7 +24,7 @@ RULE = (
     "pair; distinct = (operation, parameters, input hash, seed); non-trivial = the operation returned in both runs"
 )
 ASSUMPTIONS = ["thorough tier repeats the CLI steps as real subprocesses under two PYTHONHASHSEED values", "line-granular injection uses sys.monitoring LINE events on code objects whose file lies under the tree under test"]
-REQUIRED = {"pairs_compared": {"quick": 400, "thorough": 8000}, "global_state_checks": {"quick": 400, "thorough": 8000}, "injected_global_draws": {"quick": 2000, "thorough": 50000}, "training_pairs": {"quick": 16, "thorough": 300}, "training_pairs_same_model": {"quick": 16, "thorough": 300}, "training_with_non_default_switches": {"quick": 6, "thorough": 100}, "vi_training_pairs": {"quick": 40, "thorough": 600}, "grid_model_training_pairs": {"quick": 2, "thorough": 16}, "cli_pairs": {"quick": 24, "thorough": 400}, "cli_subprocess_pairs": {"quick": 2, "thorough": 16}}
+REQUIRED = {"pairs_compared": {"quick": 400, "thorough": 8000}, "global_state_checks": {"quick": 400, "thorough": 8000}, "injected_global_draws": {"quick": 2000, "thorough": 50000}, "training_pairs": {"quick": 16, "thorough": 300}, "training_pairs_same_model": {"quick": 16, "thorough": 300}, "training_with_non_default_switches": {"quick": 6, "thorough": 100}, "vi_training_pairs": {"quick": 40, "thorough": 600}, "reused_scorer_pairs": {"quick": 30, "thorough": 600}, "grid_model_training_pairs": {"quick": 2, "thorough": 16}, "cli_pairs": {"quick": 24, "thorough": 400}, "cli_subprocess_pairs": {"quick": 2, "thorough": 16}}
 N_OPS = {"quick": 640, "thorough": 12800}
 TOOL = 4
 
@@ -214,6 +214,20 @@ def run_shard(rec, tier, seed, shard, nshards):
         pair(rec, "GaussianDBALScorer", "max_triples=%d" % budget, lambda: G.GaussianDBALScorer(max_chunk=int(2), max_triples=budget).score(plates, cdm, holder, np.random.default_rng(s0), False), lambda r: sorted((int(k), float(v).hex()) for k, v in r.items()), w, case_key=("dbal", s0, T, budget))
         nch = int(rng.integers(1, 4))
         cidx = int(rng.integers(nch))
+        # a scorer object with a past: in the second run the same kind of object has already scored once with another
+        # seed (a long-lived scorer in a loop over rounds); its output may depend on the inputs and the generator only
+        def reused(make, st):
+            def run():
+                st["n"] = st.get("n", 0) + 1
+                sc = make()
+                if st["n"] == 2:
+                    sc.score(plates, cdm, holder, np.random.default_rng(s0 + 17), False)
+                return sc.score(plates, cdm, holder, np.random.default_rng(s0), False)
+
+            return run
+
+        pair(rec, "GaussianDBALScorer-reused-object", "max_triples=%d" % budget, reused(lambda: G.GaussianDBALScorer(max_chunk=int(2), max_triples=budget), {}), lambda r: sorted((int(k), float(v).hex()) for k, v in r.items()), w, case_key=("dbal-reused", s0, T, budget), count_as="reused_scorer_pairs")
+        pair(rec, "RandomScorer-reused-object", "", reused(lambda: RandomScorer(), {}), lambda r: sorted((int(k), float(v)) for k, v in r.items()), w, case_key=("rand-reused", s0, len(plates)), count_as="reused_scorer_pairs")
         pair(rec, "score_chunk", "RandomScorer", lambda: score_chunk(RandomScorer(), holder, screen, cdm, rng=np.random.default_rng(s0), n_chunks=nch, chunk_index=cidx), lambda h: [kit.array_hash(h.scores), kit.array_hash(h.plate_ids)], w, case_key=("score_chunk", s0, nch, cidx))
         pair(rec, "score_chunk", "GaussianDBALScorer", lambda: score_chunk(G.GaussianDBALScorer(max_triples=budget), holder, screen, cdm, rng=np.random.default_rng(s0), n_chunks=nch, chunk_index=cidx), lambda h: [kit.array_hash(h.scores), kit.array_hash(h.plate_ids)], w, case_key=("score_chunk-dbal", s0, nch, cidx, budget))
         allh = ChunkedScoresHolder(len(plates))
